@@ -6,7 +6,35 @@ COMMON_TRUSTED = [
     "rustc/cargo building the crates under test",
 ]
 
+def tr_psl(log):
+    """regenerate Generated/PslTable.lean and Generated/PslRules.lean from /repo/public-suffix"""
+    import importlib.util, os
+    here = os.path.dirname(os.path.abspath(__file__))
+    spec = importlib.util.spec_from_file_location("psl_tr", os.path.join(here, "..", "..", "translate", "psl.py"))
+    m = importlib.util.module_from_spec(spec)
+    spec.loader.exec_module(m)
+    info = m.main()
+    log.write("translator psl: %s\n" % info)
+    return info
+
+
 PROPS = {
+    "C10": {
+        "modules": ["PasskeyVerif.Props.C10", "PasskeyVerif.Props.C10Table", "PasskeyVerif.Props.C10Rules"],
+        "props_files": ["PasskeyVerif/Props/C10.lean", "PasskeyVerif/Props/C10Table.lean", "PasskeyVerif/Props/C10Rules.lean"],
+        "translators": [tr_psl],
+        "harness": [["gen", "C10"]],
+        "technique": "Lean 4 theorems (table walk = trie walk = PSL algorithm over the rule list, for every byte string) over a table and rule list regenerated from /repo on every run and re-checked by the kernel (decide +kernel); model of lib.rs tied to the code by a differential correspondence harness",
+        "trusted": COMMON_TRUSTED + [
+            "translator translate/psl.py (reads tld_list.rs and public_suffix_list.dat; IDN rule labels punycoded with Python's punycode codec); its reading of the table is cross-checked on every run against the constants and arrays dumped from the compiled crate (op psl.table)",
+            "modelled by hand: public-suffix/src/lib.rs (public_suffix, find, node_label, effective_tld_plus_one, is_effective_tld) on byte lists; str slicing modelled as byte slicing (every cut is next to an ASCII dot)",
+        ],
+        "assumptions": ["inputs are compared bytewise as given (no case folding, no IDNA), as the crate documents",
+                        "the empty string is outside the statement for is_effective_tld (the code returns true; noted in DESIGN.md)"],
+        "level_text": "For every byte string: public suffix, eTLD+1 and is_effective_tld computed by the model of lib.rs over the regenerated table equal the publicsuffix.org algorithm over the regenerated rule list; results are label-aligned suffixes, eTLD+1 has exactly one more label, empty labels are rejected, no lookup panics. The table-vs-rule-list obligation is re-checked by the Lean kernel whenever either file changes; the model is tied to lib.rs by a differential stream over rule-derived and arbitrary names.",
+        "level_note": "Trusted: Lean kernel; axioms propext/Classical.choice/Quot.sound; the translator (cross-checked against the compiled constants); the hand-written model of lib.rs (checked on explored inputs); the Spec (PSL algorithm text).",
+        "rule": "every rule of the .dat file (quick: a seeded fifth) as a name, extended by 1-3 labels, with the leading label removed / replaced, wildcard rules with and without a label; hand-picked corner cases; arbitrary strings (Unicode, empty labels, up to 10 kB, mixed case).",
+    },
     "C16": {
         "modules": ["PasskeyVerif.Props.C16"],
         "props_files": ["PasskeyVerif/Props/C16.lean"],
